@@ -139,4 +139,15 @@ func TestVerifPhase(t *testing.T) {
 			run(verifphase.Random(r.Rng, fl))
 		}
 	}
+	// the REST mapper fails (transient discovery error, not NoMatch) for some kinds during the pass:
+	// exhaustive table + random phases.  (After everything else: the scenarios above stay what they were.)
+	for _, fl := range order {
+		for _, s := range verifphase.MapFaultTable(fl) {
+			run(s)
+		}
+		n := r.Pick(300, 2000)
+		for i := 0; i < n; i++ {
+			run(verifphase.RandomMapFault(r.Rng, fl))
+		}
+	}
 }
